@@ -7,7 +7,8 @@
   account rows and the action list of every run that ends normally (`err = none`: the price frame has a row for every bar,
   the triggers can be evaluated); what ends a run abnormally is part of the model and of the correspondence check.
 -/
-import Proofs.Lemmas.CoreActuator3
+import Proofs.Lemmas.CoreActuator10
+import Mathlib.Tactic.Ring
 namespace Demeter
 open Core
 
@@ -217,6 +218,216 @@ theorem C05_notify_exactly_once (cfg : Cfg) (trigs : List Trig) (sc : Script) (h
     (∀ e ∈ (run cfg trigs sc).trace, (notifyAct e).isSome → e.phase = 15) := by
   obtain ⟨h1, h2, h3⟩ := core_run_rec cfg trigs sc h
   exact ⟨by rw [h2, h1], h3, fun e _ he => notifyAct_phase e he⟩
+
+/-- **C05 — the market update and the first refresh touch every market exactly once per bar, in broker order.** -/
+theorem C05_update_once_per_market_per_bar (cfg : Cfg) (trigs : List Trig) (sc : Script) (h : (run cfg trigs sc).err = none) :
+    (run cfg trigs sc).trace.filterMap updateOf =
+      (barIndex cfg).flatMap (fun ts => (List.range cfg.markets.length).map (fun m => (ts, m))) ∧
+    (run cfg trigs sc).trace.filterMap set1Of =
+      (barIndex cfg).flatMap (fun ts => (List.range cfg.markets.length).map (fun m => (ts, m))) := by
+  have flat : ∀ (l : List Int) (n : Nat), (l.zipIdx n).flatMap (fun x => (List.range cfg.markets.length).map (fun m => (x.1, m))) =
+      l.flatMap (fun ts => (List.range cfg.markets.length).map (fun m => (ts, m))) := by
+    intro l
+    induction l with
+    | nil => intro _; rfl
+    | cons a l ih => intro n; simp only [List.zipIdx_cons, List.flatMap_cons, ih]
+  constructor
+  · obtain ⟨ts0, bars, hb, hl, htr, _⟩ := core_run_fm_loop updateOf 11 updateOf_phase (by omega) cfg trigs sc h
+    rw [htr, hb]
+    have := runBars_fm_of_bar updateOf cfg sc (fun ts _ => (List.range cfg.markets.length).map (fun m => (ts, m)))
+      (fun row ts st price => barTrace_updates cfg sc row ts st price) (ts0 :: bars) 0 _ hl
+    rw [show (loopRun cfg trigs sc ts0 bars).1 = (runBars cfg sc 0 (ts0 :: bars) (initRun cfg trigs sc ts0).2).1 from rfl, this, flat]
+  · obtain ⟨ts0, bars, hb, hl, htr, _⟩ := core_run_fm_loop set1Of 3 set1Of_phase (by omega) cfg trigs sc h
+    rw [htr, hb]
+    have := runBars_fm_of_bar set1Of cfg sc (fun ts _ => (List.range cfg.markets.length).map (fun m => (ts, m)))
+      (fun row ts st price => barTrace_sets cfg sc row ts st price) (ts0 :: bars) 0 _ hl
+    rw [show (loopRun cfg trigs sc ts0 bars).1 = (runBars cfg sc 0 (ts0 :: bars) (initRun cfg trigs sc ts0).2).1 from rfl, this, flat]
+
+/-- **C05/C18 — the trigger part of the bar loop.**  The trigger actions called during a run are, in order, exactly the calls
+    of `trigRun` over the bar index (Demeter/Trigger.lean, the subject of C18), and the triggers left installed are the ones it
+    retains: hooks, operations, refreshes and updates do not interfere with trigger evaluation and retirement. -/
+theorem C05_trigger_calls_are_trigRun (cfg : Cfg) (trigs : List Trig) (sc : Script) (h : (run cfg trigs sc).err = none) :
+    (run cfg trigs sc).trace.filterMap fireOfEv = (trigRun (barIndex cfg) trigs).1 ∧
+    (run cfg trigs sc).trigsLeft = (trigRun (barIndex cfg) trigs).2.1 ∧
+    (trigRun (barIndex cfg) trigs).2.2 = none :=
+  core_run_trig cfg trigs sc h
+
+/-! ### is_open -/
+
+/-- **C05 — `is_open` is true exactly on the market's own timestamps** (its data index, resampled like every frame when the
+    interval is not one minute): the flag every refresh reports, and the flag that gates operations and open callbacks. -/
+theorem C05_is_open_iff_own_timestamp (cfg : Cfg) (mc : MarketCfg) (ts : Int) :
+    marketOpen cfg mc ts = true ↔ ts ∈ frameIdx cfg.resample cfg.Δ mc.idx := by
+  simp [marketOpen]
+
+/-- an hourly market in a minutely run is open exactly on the whole hours it has data for -/
+theorem C05_hourly_market_open_on_whole_hours (cfg : Cfg) (mc : MarketCfg) (ts : Int) (hraw : cfg.resample = false)
+    (hhour : ∀ t ∈ mc.idx, t % 3600 = 0) :
+    (marketOpen cfg mc ts = true ↔ ts ∈ mc.idx) ∧ (marketOpen cfg mc ts = true → ts % 3600 = 0) := by
+  have e : marketOpen cfg mc ts = true ↔ ts ∈ mc.idx := by simp [marketOpen, frameIdx, hraw]
+  exact ⟨e, fun h => hhour ts (e.mp h)⟩
+
+/-- **C05 — operations are gated by `is_open`.**  In every run that ends normally, for every event of the trace at a bar
+    `t`: an accepted operation and an open callback happen only on a market whose index contains `t`; an operation refused as
+    "not open" happens only on a market whose index does not contain `t` (and vice versa: on an open market a refusal is the
+    market's own); every refresh reports `is_open = (t ∈ index)`. -/
+theorem C05_operations_gated_by_is_open (cfg : Cfg) (trigs : List Trig) (sc : Script) (h : (run cfg trigs sc).err = none)
+    (hidx : (barIndex cfg).Pairwise (· < ·)) :
+    ∀ e ∈ (run cfg trigs sc).trace, ∀ t, e.ts = some t → OpGate cfg t e := by
+  obtain ⟨ts0, bars, hb, _, _, hl, htr, _, _, _⟩ := run_ok h
+  rw [hb] at hidx
+  rw [htr]
+  have g0 := setAllFrom_gate cfg ts0 0 0 cfg.markets List.drop_zero
+  obtain ⟨gi, _⟩ := runOps_gate cfg ts0 .init sc.init (initSt cfg trigs ts0) g0.2
+  have gl := runBars_gate cfg sc (ts0 :: bars) 0 _ hidx hl
+  intro e he t het
+  simp only [List.mem_append, List.mem_cons, List.not_mem_nil, or_false] at he
+  rcases he with ((h' | rfl | h') | h') | rfl
+  · have := (setAllFrom_at cfg ts0 0 0 _ e h').1
+    rw [this] at het; cases het
+    exact g0.1 e h'
+  · trivial
+  · have := (runOps_at ts0 .init _ _ e h').1
+    rw [this] at het; cases het
+    exact gi e h'
+  · exact gl e h' t het
+  · trivial
+
+/-- a gated operation on a closed market is refused with "… is not open", records nothing and changes nothing -/
+theorem C05_closed_market_refuses (ts : Int) (hk : Hook) (op : OpSpec) (st : St) (s : MSt)
+    (hs : st.ms[op.m]? = some s) (hclosed : s.isOpen = false) :
+    doOp ts hk op st = ([.opRej ts hk op.m op.tag true], st) ∧ recordedAct (.opRej ts hk op.m op.tag true) = none := by
+  constructor
+  · unfold doOp
+    rw [hs]
+    simp [hclosed]
+  · rfl
+
+/-! ### the resampled index -/
+
+theorem core_binLabel_floor (Δ o t : Int) (hΔ : 0 < Δ) : binLabel Δ o t ≤ t ∧ t < binLabel Δ o t + Δ := by
+  unfold binLabel
+  have h1 := Int.ediv_mul_le (t - o) (ne_of_gt hΔ)
+  have h2 := Int.lt_ediv_add_one_mul_self (t - o) hΔ
+  constructor
+  · omega
+  · have : ((t - o) / Δ + 1) * Δ = (t - o) / Δ * Δ + Δ := by ring
+    omega
+
+theorem core_mem_grid (start Δ : Int) (n : Nat) (x : Int) : x ∈ grid start Δ n ↔ ∃ i : Nat, i < n ∧ x = start + (i : Int) * Δ := by
+  simp only [grid, List.mem_map, List.mem_range]
+  constructor
+  · rintro ⟨i, hi, rfl⟩; exact ⟨i, hi, rfl⟩
+  · rintro ⟨i, hi, rfl⟩; exact ⟨i, hi, rfl⟩
+
+/-- **C05 — the resampled index.**  For a positive interval `Δ` the index of a frame resampled with `first()` is the
+    arithmetic grid of bin labels (anchored at midnight of the first day) from the bin of the first row to the bin of the last;
+    every raw row between them falls into exactly the bin `[label, label + Δ)` of a member of the index. -/
+theorem C05_resampled_index (Δ : Int) (hΔ : 0 < Δ) (a b : Int) (mid : List Int) (hab : a ≤ b) :
+    let idx := a :: (mid ++ [b])
+    let o := dayStart a
+    (resampleIdx Δ idx).Pairwise (· < ·) ∧
+    (resampleIdx Δ idx).head? = some (binLabel Δ o a) ∧
+    (∀ t, a ≤ t → t ≤ b → binLabel Δ o t ∈ resampleIdx Δ idx ∧ binLabel Δ o t ≤ t ∧ t < binLabel Δ o t + Δ) ∧
+    (∀ x ∈ resampleIdx Δ idx, ∃ i : Nat, x = binLabel Δ o a + (i : Int) * Δ ∧ x ≤ b) := by
+  intro idx o
+  have hidx : resampleIdx Δ idx = grid (binLabel Δ o a) Δ (((binLabel Δ o b - binLabel Δ o a) / Δ).toNat + 1) := by
+    have hl : (a :: (mid ++ [b])).getLast? = some b := by
+      rw [show a :: (mid ++ [b]) = (a :: mid) ++ [b] from rfl, List.getLast?_append]; rfl
+    simp only [resampleIdx, idx, List.head?_cons, hl, o]
+  rw [hidx]
+  have mono : ∀ t, a ≤ t → (a - o) / Δ ≤ (t - o) / Δ := fun t ht => Int.ediv_le_ediv hΔ (by omega)
+  have diff : ∀ t, binLabel Δ o t - binLabel Δ o a = ((t - o) / Δ - (a - o) / Δ) * Δ := by
+    intro t; unfold binLabel; ring
+  have quot : ∀ t, (binLabel Δ o t - binLabel Δ o a) / Δ = (t - o) / Δ - (a - o) / Δ := by
+    intro t; rw [diff]; exact Int.mul_ediv_cancel _ (ne_of_gt hΔ)
+  refine ⟨core_grid_pairwise' _ _ hΔ _, ?_, ?_, ?_⟩
+  · simp [grid, List.range_succ_eq_map]
+  · intro t h1 h2
+    refine ⟨?_, core_binLabel_floor Δ o t hΔ⟩
+    rw [core_mem_grid]
+    have hk : 0 ≤ (t - o) / Δ - (a - o) / Δ := by have := mono t h1; omega
+    have hk2 : (t - o) / Δ ≤ (b - o) / Δ := Int.ediv_le_ediv hΔ (by omega)
+    refine ⟨((t - o) / Δ - (a - o) / Δ).toNat, ?_, ?_⟩
+    · rw [quot b]
+      have hb' : 0 ≤ (b - o) / Δ - (a - o) / Δ := by have := mono b hab; omega
+      omega
+    · rw [Int.toNat_of_nonneg hk]
+      have := diff t
+      omega
+  · intro x hx
+    obtain ⟨i, hi, rfl⟩ := (core_mem_grid _ _ _ _).mp hx
+    refine ⟨i, rfl, ?_⟩
+    rw [quot b] at hi
+    have hb' : 0 ≤ (b - o) / Δ - (a - o) / Δ := by have := mono b hab; omega
+    have hi' : (i : Int) ≤ (b - o) / Δ - (a - o) / Δ := by omega
+    have hmul : (i : Int) * Δ ≤ ((b - o) / Δ - (a - o) / Δ) * Δ := Int.mul_le_mul_of_nonneg_right hi' (le_of_lt hΔ)
+    have := diff b
+    have := (core_binLabel_floor Δ o b hΔ).1
+    omega
+
+/-! ### the trace is made of bars; the second refresh -/
+
+theorem core_runBars_segs (cfg : Cfg) (sc : Script) : ∀ (bars : List Int) (row : Nat) (st : St),
+    (runBars cfg sc row bars st).2.2 = none →
+    ∃ segs : List (List Ev), (runBars cfg sc row bars st).1 = segs.flatten ∧ segs.length = bars.length ∧
+      ∀ (k : Nat) (hk : k < bars.length), ∃ st' price, segs[k]? = some ((barParts cfg sc (row + k) bars[k] st' price).trace (row + k) bars[k])
+  | [], _, _, _ => ⟨[], rfl, rfl, fun k hk => absurd hk (by simp)⟩
+  | ts :: bars, row, st, h => by
+    obtain ⟨h1, h2, h3⟩ := runBars_cons_ok h
+    obtain ⟨price, _, _, hstep⟩ := barStep_ok h1
+    obtain ⟨segs, e1, e2, e3⟩ := core_runBars_segs cfg sc bars (row + 1) _ h2
+    refine ⟨((barParts cfg sc row ts st price).trace row ts) :: segs, ?_, by simp [e2], ?_⟩
+    · rw [h3]; simp only [List.flatten_cons, e1]; rw [hstep]
+    · intro k hk
+      cases k with
+      | zero => exact ⟨st, price, by simp⟩
+      | succ j =>
+        obtain ⟨st', price', hj⟩ := e3 j (by simpa using hk)
+        refine ⟨st', price', ?_⟩
+        simp only [List.getElem?_cons_succ, List.getElem_cons_succ]
+        rw [hj]
+        have : row + 1 + j = row + (j + 1) := by omega
+        rw [this]
+
+/-- the call trace of a normal run is: the refresh before `initialize`, `initialize` and what it does, then one stretch per bar of
+    the index — each the trace of `barParts` (one iteration of the loop) from some state —, then `finalize` -/
+theorem C05_trace_is_made_of_bars (cfg : Cfg) (trigs : List Trig) (sc : Script) (h : (run cfg trigs sc).err = none) :
+    ∃ (pre : List Ev) (segs : List (List Ev)) (fin : Ev),
+      (run cfg trigs sc).trace = pre ++ segs.flatten ++ [fin] ∧ segs.length = (barIndex cfg).length ∧
+      (∀ e ∈ pre, e.phase ≤ 2) ∧ fin.phase = 16 ∧
+      ∀ (k : Nat) (hk : k < (barIndex cfg).length), ∃ st price,
+        segs[k]? = some ((barParts cfg sc k (barIndex cfg)[k] st price).trace k (barIndex cfg)[k]) := by
+  obtain ⟨ts0, bars, hb, _, _, hl, htr, _, _, _⟩ := run_ok h
+  obtain ⟨segs, e1, e2, e3⟩ := core_runBars_segs cfg sc (ts0 :: bars) 0 _ hl
+  refine ⟨(setAllFrom cfg ts0 0 0 cfg.markets).1 ++ Ev.initialize ts0 :: (initRun cfg trigs sc ts0).1, segs,
+    Ev.finalize ((ts0 :: bars).getLast?.getD ts0), ?_, by rw [hb]; exact e2, ?_, rfl, ?_⟩
+  · rw [htr]
+    show _ ++ (runBars cfg sc 0 (ts0 :: bars) (initRun cfg trigs sc ts0).2).1 ++ _ = _
+    rw [e1]
+  · intro e he
+    simp only [List.mem_append, List.mem_cons] at he
+    rcases he with h' | rfl | h'
+    · have := (setAllFrom_at cfg ts0 0 0 _ e h').2; simp [stagePhase] at this; omega
+    · simp [Ev.phase]
+    · have := (runOps_at ts0 .init _ _ e h').2; simp [Hook.phase] at this; omega
+  · intro k hk
+    have hk' : k < (ts0 :: bars).length := by rw [← hb]; exact hk
+    obtain ⟨st', price, hs⟩ := e3 k hk'
+    refine ⟨st', price, ?_⟩
+    simp only [Nat.zero_add] at hs
+    simp only [hb]
+    exact hs
+
+/-- **C05 — the second refresh touches exactly the markets with `has_update`.**  In every iteration of the loop, from every
+    state: the second `set_market_status` round of the bar touches, once each and in broker order, exactly the markets on which
+    an operation was accepted earlier in that bar (in `before_bar`, a trigger action, an open callback or `on_bar`; the first
+    refresh cleared the flags, so operations of earlier bars, of `initialize` or of `after_bar` do not count). -/
+theorem C05_second_refresh_iff_has_update (cfg : Cfg) (sc : Script) (row : Nat) (ts : Int) (st : St) (price : Option Int) :
+    ((barParts cfg sc row ts st price).trace row ts).filterMap set2Of =
+      ((List.range cfg.markets.length).filter
+        (fun m => ((barParts cfg sc row ts st price).trace row ts).any (okEarly m))).map (fun m => (ts, m)) :=
+  barTrace_second_refresh cfg sc row ts st price
 
 /-! ### non-vacuity: a concrete run (a minutely and an hourly market, raw 1-minute bars from 08:58) -/
 
